@@ -216,3 +216,21 @@ Proof.
   intros H. pose proof (check_data_total data) as Hp. unfold ml_init, ml_update, ml_reload.
   destruct (check_data data) as [u|e|]; [exfalso; now apply (H u)| |contradiction]. cbn [bind]. repeat split; eauto.
 Qed.
+
+(** C12: a buffer of exactly the advertised size works, one byte less fails *)
+Theorem exact_size t ms : wf_tag t -> Forall wf_extra ms -> len ms < 100000000 ->
+  let n := N.to_nat (12 + (4 + 35 * len ms)) in
+  ml_init (zeros n) t ms = (render n [(t, lv_enc ms)], Ok tt) /\
+  exists e, ml_init (zeros (n - 1)) t ms = (zeros (n - 1), Err e).
+Proof.
+  intros Ht Hwf Hs. cbv zeta. set (n := N.to_nat (12 + (4 + 35 * len ms))).
+  split.
+  - pose proof (init_canon n [] t ms (fits_nil n) Ht Hwf Hs) as H. rewrite render_nil in H.
+    assert (Hp : push_ok n [] t (4 + 35 * len ms) false = true).
+    { unfold push_ok, has. cbn [existsb negb orb andb]. rewrite enc_nil, Proofs.len_nil. unfold HDR, U32_LIMIT, n. lia. }
+    rewrite Hp in H. exact (proj1 H).
+  - pose proof (init_canon (n - 1) [] t ms (fits_nil (n - 1)) Ht Hwf Hs) as H. rewrite render_nil in H.
+    assert (Hp : push_ok (n - 1) [] t (4 + 35 * len ms) false = false).
+    { unfold push_ok, has. cbn [existsb negb orb andb]. rewrite enc_nil, Proofs.len_nil. unfold HDR, n. lia. }
+    rewrite Hp in H. exact H.
+Qed.
